@@ -473,6 +473,102 @@ def job_units(tier, units):
     return res
 
 
+# ---------------------------------------------------------------------------
+# a second naming convention in the same process (signatures are configurations: the keyword names
+# a caller uses are the convention-translated ones of *his* context, whatever else the process built)
+# ---------------------------------------------------------------------------
+def job_conventions(order):
+    """order 'camel-first': the default (camelCase) context is built and used first, then a context with
+    PythonConvention; 'python-first': the other way round.  In the second context every definition with
+    visible parameters is called positionally and with every positional/keyword split, keyword names
+    translated by that context's convention; outcomes must agree."""
+    import copy
+    import yaql
+    from yaql.language import conventions, specs as yspecs
+    res = Result()
+
+    def build_python():
+        return yaql.create_context(delegates=True, convention=conventions.PythonConvention())
+    if order == 'camel-first':
+        s = setup()
+        C.root()
+        C.evaluate('max(1, 2)')
+        pyroot = build_python()
+    else:
+        pyroot = build_python()
+        s = setup()
+        C.root()
+    engine = yq.engine(C.OPTIONS, allow_delegates=True)
+    py = {}
+    for layer, name, fd in yq.all_definitions(pyroot):
+        py[(fd.payload.__module__, fd.payload.__qualname__, tuple(sorted(fd.parameters)), fd.is_method, fd.is_function)] = (name, fd)
+    camel = conventions.CamelCaseConvention()
+    for rec in s['recs']:
+        if rec.syntax != 'name' or rec.no_kwargs or not rec.params or rec.name in ENVIRONMENT:
+            continue
+        tuples = tuples_of(rec, 'quick')
+        if not tuples:
+            continue
+        args = tuples[0]
+        if args.var or args.kw:
+            continue
+        fd = rec.fd
+        hit = py.get((fd.payload.__module__, fd.payload.__qualname__, tuple(sorted(fd.parameters)), fd.is_method, fd.is_function))
+        if hit is None:
+            continue
+        # the definition as the *python-convention* context spells it
+        prec = copy.copy(rec)
+        prec.name = hit[0]
+        prec.params = []
+        for p in rec.params:
+            q = copy.copy(p)
+            # expected keyword: the alias declared explicitly with @parameter(alias=...), else the
+            # convention-translated python name - computed here, never read from the context under test
+            raw = getattr(fd.payload, '__yaql_function__', None)
+            declared = raw.parameters[p.key].alias if raw is not None and p.key in raw.parameters else None
+            q.alias = declared or conventions.PythonConvention().convert_parameter_name(p.name.rstrip('_'))
+            prec.params.append(q)
+        contexts_to_check = [('python', pyroot, prec)] if order == 'camel-first' else [('camel', C.root(), rec)]
+        for cname, root_ctx, r in contexts_to_check:
+            n = len(r.params)
+            ptext = [arg_text(v, 'p%d' % i, 'var') for i, v in enumerate(args.pos)]
+            ref = None
+            forms = ('fn',) if r.kind == 'function' else ('method',) if r.kind == 'method' else ('fn', 'method')
+            for form in forms:
+                for k in range(n, -1, -1):
+                    if form == 'method' and k == 0:
+                        continue
+                    pos = ptext[:k]
+                    kw = [(r.params[i].alias, ptext[i]) for i in range(k, n)]
+                    text = C.call_text(r, form, pos, kw)
+                    if text is None:
+                        continue
+                    res.case(('convention', order, cname, r.ident, text))
+                    ctx = root_ctx.create_child_context()
+                    for kk, vv in variables(args, 'var').items():
+                        ctx[kk] = vv
+                    try:
+                        out = ('v', canon(engine(text).evaluate(context=ctx)))
+                    except Exception as e:
+                        out = ('e', error_class(e))
+                    res.evaluations += 1
+                    if ref is None:
+                        ref = (text, out)
+                        continue
+                    res.transitions += 1
+                    if kw:
+                        res.nontrivial += 1
+                    if out != ref[1]:
+                        res.fail('keyword spelling differs in the %s-convention context when it is built %s in the process'
+                                 % (cname, 'second' if (cname == 'python') == (order == 'camel-first') else 'first'),
+                                 {'kind': 'convention', 'order': order, 'def': rec.ident, 'a': ref[0], 'b': text},
+                                 '%s -> %r   but   %s -> %r' % (ref[0], ref[1], text, out))
+                    res.outcomes['convention %s %s' % (cname, 'value' if out[0] == 'v' else out[1])] += 1
+    res.sample({'convention_job': order})
+    return res
+
+
+
 def unit_cost(rec, tier, ti):
     n = len(rec.params)
     return len(omitted_sets(rec, tier, base=(ti == 0))) * (n + 1) * (2 + n) * (2 if tier == 'thorough' else 1) + 20
@@ -491,7 +587,10 @@ def jobs(tier, seed):
         b = min(bins, key=lambda x: x[0])
         b[0] += u[0]
         b[1].append(u[1:])
-    return [('units-%02d' % i, 'job_units', (tier, b[1])) for i, b in enumerate(bins) if b[1]]
+    out = [('units-%02d' % i, 'job_units', (tier, b[1])) for i, b in enumerate(bins) if b[1]]
+    out.append(('conv-camel-first', 'job_conventions', ('camel-first',)))
+    out.append(('conv-python-first', 'job_conventions', ('python-first',)))
+    return out
 
 
 def finish(total, tier):
@@ -515,6 +614,10 @@ def _args_from(rec, case):
 
 
 def replay(case):
+    if case.get('kind') == 'convention':
+        r = job_conventions(case['order'])
+        hit = [f for f in r.failures.values() if f.case.get('def') == case['def']]
+        return {'observed': [f.detail for f in hit], 'expected': 'positional and keyword spellings agree', 'ok': not hit}
     s = setup()
     rec = s['by_ident'][case['def']]
     args = _args_from(rec, case)
